@@ -59,6 +59,8 @@ def child_env(scratch):
                            "malloc_context_size=12")
     env["UBSAN_OPTIONS"] = "print_stacktrace=1:halt_on_error=1:exitcode=96"
     env["LSAN_OPTIONS"] = "exitcode=0:print_suppressions=0"
+    env["QSX_ESOLVER_OPT"] = os.path.join(build.BUILD, "opt", "esolver")
+    env["QSX_ESOLVER_ASAN"] = os.path.join(build.BUILD, "asan", "esolver")
     env["MALLOC_TOP_PAD_"] = "67108864"
     env["MALLOC_TRIM_THRESHOLD_"] = "536870912"
     env.pop("RC_PARAMS", None)
@@ -153,6 +155,8 @@ def do_run(prop, tier, seed):
         flavours = sorted(set(r.get("flavour", "asan") for r in plan["runs"] if r.get("kind", "rc") == "rc")) or ["asan"]
         for fl in flavours:
             exes[fl] = os.path.join(binaries(fl), "qsx")
+        if plan.get("needs_esolver"):
+            binaries("opt"); binaries("asan")
         fuzz_exe = None
         if any(r.get("kind") == "fuzz" for r in plan["runs"]):
             fuzz_exe = os.path.join(binaries("fuzz", need_fuzz=True), "qsx_fuzz")
@@ -409,6 +413,8 @@ def do_replay(prop, path):
     try:
         env = child_env(scratch)
         exe = os.path.join(binaries("asan"), "qsx")
+        if PLAN.get(prop, {}).get("needs_esolver"):
+            binaries("opt")
         variant = variant_of_file(prop, path)
         verdict, sig, out = run_replay(exe, prop, variant, os.path.abspath(path), env)
         sys.stderr.write(out)
